@@ -163,26 +163,26 @@ class Runner14(c13.Runner):
         for r in results:
             self.judge_suggestion(seq, s, st, gid, facts, r, rec, d_before)
         if facts and len(gaps) >= 1 and op['g'] % 2 == 0:
-            # a second search in the same process, other goal, no facts selected: nothing of the first may leak
+            # further searches in the same process, other goals, no facts selected: nothing of the first may leak
             others = [it for it in gaps if str(it.id) != str(gid)] or gaps
             earlier = [it for it in others if not all(it.id.can_depend_on(ItemID(f)) for f in facts)]
-            if earlier and op['g'] % 4 == 0:
-                others = earlier
-            gid2 = others[(op['g'] // 2) % len(others)].id
-            try:
-                with c13.op_alarm(90):
-                    results2 = st.search_method(str(gid2), [])
-            except c13.OpTimeout:
-                ctr.inc('op_timeout')
-                return
-            except Exception:
-                ctr.inc('probe_search_method_raised')
-                return
-            ctr.inc('searches')
-            ctr.inc('follow_up_searches_without_facts')
-            log.add(seq, 'search2', s.idx, str(gid2), len(results2))
-            for r in results2:
-                self.judge_suggestion(seq, s, st, gid2, [], r, rec, d_before)
+            todo = (earlier + [it for it in others if it not in earlier])[:3]
+            for g2 in todo:
+                gid2 = g2.id
+                try:
+                    with c13.op_alarm(90):
+                        results2 = st.search_method(str(gid2), [])
+                except c13.OpTimeout:
+                    ctr.inc('op_timeout')
+                    return
+                except Exception:
+                    ctr.inc('probe_search_method_raised')
+                    continue
+                ctr.inc('searches')
+                ctr.inc('follow_up_searches_without_facts')
+                log.add(seq, 'search2', s.idx, str(gid2), len(results2))
+                for r in results2:
+                    self.judge_suggestion(seq, s, st, gid2, [], r, rec, d_before)
 
     def judge_suggestion(self, seq, s, st, gid, facts, r, rec, d_before):
         from server import method
